@@ -45,6 +45,7 @@ int main(int argc, char** argv)
     FILE* out = fopen(argv[2], "w");
     if (!in || !out) return 2;
     vh_install(out);
+    setvbuf(out, NULL, _IOLBF, 0);      // a sanitizer abort does not flush stdio: every completed call must already be in the log
     ProbeShell shell;
     std::string line;
     while (vh_readline(in, line)) {
